@@ -146,6 +146,192 @@ def _fix_contexts(N, grams):
     return grams
 
 
+def _add_chains(rng, N, grams, words):
+    """For every basis order b in 1..N-2 and chain length L in 1..N-1-b: an n-gram e = x1..xn (n = b+L+1) whose
+    suffixes of length b+1..n-1 are pruned (blanks needed), whose suffix of length b survives (the *basis* the
+    loader starts the blank chain from), and whose pruned suffixes' contexts are n-grams with a real back-off.
+    The last word is fresh per chain, so nothing else can re-introduce a pruned suffix.
+    Returns (list of (b, L), set of n-grams that must carry a non-zero back-off, extra queries)."""
+    chains, must_bo, queries = [], set(), []
+    ci = 0
+    for b in range(1, N - 1):
+        for L in range(1, N - b):
+            n = b + L + 1
+            if n > N:
+                continue
+            last = "zc%d" % ci
+            ci += 1
+            xs = [rng.choice(words) for _ in range(n - 1)] + [last]
+            e = tuple(xs)
+            grams[1].add((last,))
+            pre = xs[:-1]
+            for i in range(len(pre)):                      # every substring of the context is an n-gram
+                for j in range(i + 1, len(pre) + 1):
+                    grams[j - i].add(tuple(pre[i:j]))
+            grams[n].add(e)
+            for j in range(1, b + 1):                      # surviving suffixes (length <= b)
+                grams[j].add(tuple(xs[n - j:]))
+            for j in range(b + 1, n):                      # pruned suffixes: their contexts get a back-off
+                must_bo.add(tuple(xs[n - j:n - 1]))
+                grams[j].discard(tuple(xs[n - j:]))
+            chains.append((b, L))
+            for j in range(b + 1, n + 1):                  # histories matching a pruned suffix but not more
+                y = rng.choice(words)
+                queries.append((rng.choice("BN"), [y] + xs[n - j:]))
+                if rng.random() < 0.5:
+                    queries.append(("N", xs[n - j:]))
+    return chains, must_bo, queries
+
+
+def gen_fanout_case(rng, force=None):
+    """(f') high fan-out: one bigram with 100..300 left extensions while the others have 0..7, more than 64
+    bigrams, so that ArrayBhiksha chops bits and the child range of the hub spans several offset buckets."""
+    force = force or {}
+    c = Case()
+    nw = force.get("fan") or rng.randrange(100, 301)
+    ws = ["w%d" % i for i in range(nw)]
+    small = ["a", "b", "c", "d", "e", "f"]
+    N = 3
+    grams = {1: set((w,) for w in ws + small + ["<s>", "</s>"]), 2: set(), 3: set()}
+    hub = (rng.choice(small), rng.choice(small))
+    others = set()
+    while len(others) < 10:
+        o = (rng.choice(small), rng.choice(small))
+        if o != hub:
+            others.add(o)
+    fan = {hub: list(ws)}
+    for o in sorted(others):
+        fan[o] = rng.sample(ws, rng.randrange(0, 8))
+    for (x, y), lefts in fan.items():
+        grams[2].add((x, y))
+        for w in lefts:
+            grams[2].add((w, x))
+            grams[3].add((w, x, y))
+        if rng.random() < 0.5:
+            grams[2].add(("<s>", x))
+            grams[3].add(("<s>", x, y))
+    table = {}
+    for n in (1, 2, 3):
+        table[n] = {}
+        for g in sorted(grams[n]):
+            p = "-99" if g == ("<s>",) else "-%.5f" % rng.uniform(0.05, 4.0)
+            b = ("-%.5f" % rng.uniform(0.01, 1.5)) if n < 3 else None
+            table[n][g] = (p, b)
+    table[1][("<unk>",)] = ("-3.5", None)
+    lines = ["\\data\\"] + ["ngram %d=%d" % (n, len(table[n])) for n in (1, 2, 3)] + [""]
+    for n in (1, 2, 3):
+        lines.append("\\%d-grams:" % n)
+        keys = sorted(table[n])
+        rng.shuffle(keys)
+        for g in keys:
+            p, b = table[n][g]
+            lines.append(p + "\t" + " ".join(g) + ("" if b is None else "\t" + b))
+        lines.append("")
+    lines.append("\\end\\")
+    c.arpa = ("\n".join(lines) + "\n").encode()
+    c.grams = table
+    c.order = N
+    c.words = ws + small
+    c.chains = []
+    c.mult = rng.choice([1.5, 2.0])
+    c.abits = force.get("abits") if force.get("abits") is not None else rng.choice([1, 2, 3, 4, 6, 9, 22, 25, 64, 255])
+    qs = []
+    for w in rng.sample(ws, min(len(ws), 90)):
+        qs.append((rng.choice("NNB"), [w, hub[0], hub[1]]))
+    for o in sorted(others):
+        for w in fan[o][:3]:
+            qs.append(("N", [w, o[0], o[1]]))
+    qs.append(("B", [hub[0], hub[1], "</s>"]))
+    c.queries = qs
+    # Bhiksha parameters of the bigram array (max_offset = entries + 1, max_next = number of trigrams)
+    max_next = len(table[3])
+    required = max(1, max_next.bit_length())
+    best, low = 0, None
+    for chop in range(0, min(required, c.abits) + 1):
+        change = (max_next >> (required - chop)) * 64 - (len(table[2]) + 1) * chop
+        if low is None or change < low:
+            low, best = change, chop
+    inline = required - best
+    c.meta = {"chains": 0, "order": 3, "vocab": len(table[1]), "kind": "fanout", "unk": "<unk>", "crlf": False, "bos": True,
+              "eos": True, "bitbound": False, "style_c": False, "closed": True, "ngrams": sum(len(table[n]) for n in table),
+              "fan": nw, "chop_bits": best, "inline_bits": inline, "buckets_spanned_min": nw // (1 << inline) + 1}
+    return c
+
+
+def gen_equalmult_case(rng, q=3, m=2000, nq=300):
+    """k = 2^q distinct probabilities (and 2^q - 2 distinct back-offs) each occurring exactly the same number of times
+    in every quantised order: equal-population bins are homogeneous, so quantisation with q bits must be exact."""
+    c = Case()
+    kp, kb = 1 << q, (1 << q) - 2
+    import math
+    unit = kp * kb // math.gcd(kp, kb)
+    n2 = ((kp * m + unit - 1) // unit) * unit            # bigrams: multiple of kp and kb
+    V = int(math.isqrt(n2)) + 2
+    ws = ["w%d" % i for i in range(V)]
+    pairs = [(a, b) for a in ws for b in ws]
+    rng.shuffle(pairs)
+    bi = pairs[:n2]
+    biset = set(bi)
+    by_first = {}
+    for a, b in bi:
+        by_first.setdefault(a, []).append(b)
+    tri = []
+    n3 = kp * m
+    order = list(bi)
+    rng.shuffle(order)
+    seen = set()
+    while len(tri) < n3:
+        progressed = False
+        for a, b in order:
+            nxt = by_first.get(b)
+            if not nxt:
+                continue
+            cc = rng.choice(nxt)
+            if (a, b, cc) not in seen:
+                seen.add((a, b, cc))
+                tri.append((a, b, cc))
+                progressed = True
+                if len(tri) == n3:
+                    break
+        if not progressed:
+            break
+    tri = tri[: (len(tri) // kp) * kp]
+    def distinct(k, lo, hi):
+        out = set()
+        while len(out) < k:
+            out.add("-%.7f" % rng.uniform(lo, hi))
+        return sorted(out)
+    p2, b2, p3 = distinct(kp, 0.1, 3.0), distinct(kb, 0.05, 1.5), distinct(kp, 0.1, 3.0)
+    def assign(items, vals):
+        a = [vals[i % len(vals)] for i in range(len(items))]
+        rng.shuffle(a)
+        return a
+    lines = ["\\data\\", "ngram 1=%d" % (V + 1), "ngram 2=%d" % len(bi), "ngram 3=%d" % len(tri), "", "\\1-grams:", "-4\t<unk>"]
+    for i, w in enumerate(ws):
+        lines.append("-%.4f\t%s\t-%.4f" % (1.5 + 0.001 * i, w, 0.3 + 0.0007 * i))
+    lines += ["", "\\2-grams:"]
+    pa, ba = assign(bi, p2), assign(bi, b2)
+    table = {1: {}, 2: {}, 3: {}}
+    for (g, p, b) in zip(bi, pa, ba):
+        lines.append("%s\t%s %s\t%s" % (p, g[0], g[1], b))
+    lines += ["", "\\3-grams:"]
+    pa3 = assign(tri, p3)
+    for g, p in zip(tri, pa3):
+        lines.append("%s\t%s %s %s" % (p, g[0], g[1], g[2]))
+    lines += ["", "\\end\\"]
+    c.arpa = ("\n".join(lines) + "\n").encode()
+    c.order = 3
+    c.mult, c.abits = 1.5, rng.choice([0, 6, 22, 64])
+    qs = []
+    for g in rng.sample(tri, min(nq, len(tri))):
+        qs.append(("N", list(g) + [rng.choice(ws)]))
+    c.queries = qs
+    c.q = q
+    c.meta = {"kind": "equalmult", "order": 3, "q": q, "bigrams": len(bi), "trigrams": len(tri),
+              "copies_per_value": {"p2": len(bi) // kp, "b2": len(bi) // kb, "p3": len(tri) // kp}}
+    return c
+
+
 def is_suffix_closed(N, grams):
     return all(g[1:] in grams[n - 1] for n in range(2, N + 1) for g in grams[n])
 
@@ -165,6 +351,8 @@ def gen_case(rng, max_order=6, max_vocab=60, size="small", force=None):
     has_bos = rng.random() < 0.9
     has_eos = rng.random() < 0.9
     kind = force.get("kind") or rng.choice(["corpus", "corpus", "pruned", "pruned", "random"])
+    if kind == "fanout":
+        return gen_fanout_case(rng, force)
     if kind == "random":
         grams = _random_grams(rng, N, words, has_bos, has_eos)
     else:
@@ -179,6 +367,14 @@ def gen_case(rng, max_order=6, max_vocab=60, size="small", force=None):
     if has_eos:
         grams[1].add(("</s>",))
     grams = _fix_contexts(N, grams)
+    # (b') deep blank chains: every basis order 1..N-2 and every chain length
+    chains = []
+    must_bo = set()
+    chain_queries = []
+    want_chains = force.get("chains", kind == "chains" or (N >= 4 and rng.random() < 0.2))
+    if want_chains and N >= 3:
+        chains, must_bo, chain_queries = _add_chains(rng, N, grams, words)
+        bitbound = False
     # (f) trim the top order to 2^k +- 1 entries when possible
     if bitbound and len(grams[N]) > 5:
         k = max(2, len(grams[N]).bit_length() - 1)
@@ -206,6 +402,8 @@ def gen_case(rng, max_order=6, max_vocab=60, size="small", force=None):
             b = None
             if n < N:
                 b = _backoff_text(rng, allow_pos) if style_c else (None if rng.random() < 0.3 else "-%.4f" % rng.uniform(0.01, 1.5))
+                if g in must_bo:      # the context of a pruned suffix carries a real back-off
+                    b = "-%.4f" % rng.uniform(0.05, 1.5)
             table[n][g] = (p, b)
     uni_order = sorted(table[1])
     rng.shuffle(uni_order)
@@ -255,6 +453,8 @@ def gen_case(rng, max_order=6, max_vocab=60, size="small", force=None):
     # ---- options for the harness (e)
     c.mult = rng.choice([1.0001, 1.001, 1.2, 1.5, 1.5, 2.0, 10.0])
     c.abits = rng.choice([0, 1, 2, 5, 8, 16, 22, 25, 64 - 0 and 25])
+    if chains:          # blanks live in the slack of the probing tables: leave room so that probing loads
+        c.mult = rng.choice([2.0, 10.0])
     # ---- queries
     vocab_q = words + (["<s>"] if has_bos else []) + (["</s>"] if has_eos else [])
     by_ctx = {}
@@ -288,8 +488,9 @@ def gen_case(rng, max_order=6, max_vocab=60, size="small", force=None):
             ws.append(w)
             hist.append(w)
         queries.append((start, ws))
-    c.queries = queries
-    c.meta = {"order": N, "vocab": len(table[1]), "kind": kind, "unk": unk or "absent", "crlf": crlf,
+    c.queries = chain_queries + queries
+    c.chains = chains
+    c.meta = {"chains": len(chains), "order": N, "vocab": len(table[1]), "kind": kind, "unk": unk or "absent", "crlf": crlf,
               "bos": has_bos, "eos": has_eos, "bitbound": bitbound, "style_c": style_c,
               "closed": is_suffix_closed(N, {n: set(table[n]) for n in table}),
               "ngrams": sum(len(table[n]) for n in table)}
